@@ -17,7 +17,8 @@ CLAIMED = {
    tech="AST->z3 VC generation with a ghost file system (deductive)"),
  "C10": dict(cat="proof", ref="DESIGN.md 4/C10",
    text="split_sync proved for a word array of any length: line k == bit k of the word for k=0..15 (integer div/mod arithmetic, complete over all 65536 words), 1-D and (n,1) inputs; "
-        "fronts/rises/falls: soundness, polarity, order and completeness of the returned indices for 1-D and 2-D inputs along either axis; read_sync digital layout through the reader.",
+        "fronts/rises/falls: soundness, polarity, order and completeness of the returned indices for 1-D and 2-D inputs along either axis; read_sync through the reader: digital layout (imec, nidq) and "
+        "analog lines thresholded per channel after removing that channel's own floor (1 and 2 analog channels).",
    note="A-ENDIAN (asserted natively), A-NP-SPEC for unpackbits / where / diff, A-REAL for analog thresholds. Re-writes of split_sync outside the modelled NumPy subset degrade to the exhaustive native check of all 65536 words (bounded tier).",
    tech="AST->z3 VC generation, index-function arrays, where() specification axioms (deductive)"),
  "C01": dict(cat="other", ref="DESIGN.md 4/C01",
@@ -82,15 +83,17 @@ CLAIMED = {
    tech="AST->z3 VC generation with FFT shape/Hermitian specification axioms (deductive) + bounded impulse-basis stand-in"),
  "C05": dict(cat="other", ref="DESIGN.md 4/C05",
    text="car: exactly one channel-axis reduction with the requested operator is subtracted, per-collection == per-group; kfilt/fk recursion over collections forwards every setting; destripe data-flow: high-pass -> fshift by +sample_shift along time -> interpolation -> "
-        "spatial filter on rows with label != 3, sync untouched; agc: out*gain == in on live channels, dead channels untouched.",
+        "spatial filter on rows with label != 3, sync untouched; agc: out*gain == in wherever the returned gain is not zero, data untouched where it is zero, gain >= 0 (stated on the returned values only).",
    note="median/mean are opaque reductions with translation equivariance (A-NP-SPEC); butter/sosfiltfilt/fshift/convolve opaque with shapes (A-SCIPY/A-FFT). 40 dB stripe attenuation / 90 % spike retention are numeric: bounded stand-in on synthetic stripes.",
    tech="AST->z3 VC generation with call-log data-flow obligations and modular recursion contracts (deductive) + bounded numeric stand-in"),
  "C07": dict(cat="other", ref="DESIGN.md 4/C07",
-   text="fshift structure for 1-D / 2-D inputs along either axis with scalar and per-trace shifts: output shape and dtype, real input untouched, unit-delay ramp along the shift axis, inverse transform to the original length along the same axis, per-trace shifts vary along the other axis only.",
+   text="fshift structure for 1-D / 2-D inputs along either axis with scalar and per-trace shifts: output shape and dtype, real input untouched, unit-delay ramp along the shift axis, inverse transform to the original length along the same axis, per-trace shifts vary along the other axis only; "
+        "wave_shift_corrmax measures the shift from the zero lag n // 2 for every parity and moves the copy back by exactly the estimate; parabolic_max's interpolated peak is the same for x and a*x (a > 0) and within one sample of the maximum.",
    note="The shift theorem cannot be proved over an opaque transform: integer shift == roll, composition, band-limited fractional delay, call-history independence and delay estimation (wave_shift_corrmax, parabolic_max) are a bounded stand-in on the full impulse basis (linearity lifts it to all signals of a length).",
    tech="AST->z3 VC generation with an FFT call log (deductive, structure) + bounded impulse-basis stand-in (numerics)"),
  "C20": dict(cat="other", ref="DESIGN.md 4/C20",
-   text="rolling_window and smooth.lp keep the input length for every length / window / padding (Python's half-to-even round modelled); Venn peeling lemma: per bin, sorter j is counted in exactly c_j levels, so every spike is attributed once.",
+   text="rolling_window and smooth.lp keep the input length for every length / window / padding (Python's half-to-even round modelled); Venn peeling lemma: per bin, sorter j is counted in exactly c_j levels, so every spike is attributed once; "
+        "stack: row k aggregates exactly the traces carrying the k-th distinct label, with all their samples, only row k is written (one symbolic iteration, np.unique by specification).",
    note="Cadzow rank reduction, svd_denoise_npx, Savitzky-Golay and the spike-count conservation on real calls are numerics: bounded stand-in (exact frequency-domain plane waves, boundary spikes).",
    tech="AST->z3 VC generation with integer rounding lemmas (deductive) + bounded native stand-in"),
  "C15": dict(cat="other", ref="DESIGN.md 4/C15",
